@@ -42,6 +42,10 @@ def dump_diff(a, b):
 
 
 def classify(run, case, impl, model):
+    if case.startswith("V "):
+        if impl == model:
+            return "valid/oracle/" + (impl_violation(run, case, impl) or "none")
+        return "valid/impl=%s/model=%s" % (cls(impl.split(";")[0]), cls(model.split(";")[0]))
     f, ops, marks, expect = split_case(case)
     io, mo = impl.split(";"), model.split(";")
     for k in range(min(len(io), len(mo))):
@@ -67,6 +71,11 @@ def tree_of(obs):
 
 def impl_violation(run, case, impl):
     """Property predicates on the implementation alone; returns a short tag or None."""
+    if case.startswith("V "):
+        if not impl.startswith("valid;T"): return "not-readable"
+        for x in case.split()[3:]:
+            if x.startswith("expect=") and impl[7:] != x[7:]: return "written-tree"
+        return None
     f, ops, marks, expect = split_case(case)
     io = impl.split(";")[1:]   # drop new:ok
     def ob(i):
